@@ -62,3 +62,18 @@ Example C05_example :
     = LFail [LLMissingAny 1 [2]; LLMissingAny 1 [2]] /\
   layer_assert_applies N.eqb rm g a (mk_lcfg ShouldNot true false [UNamed [1;2]; UNamed [1;3]] [UNamed [1;4]]) = LPass.
 Proof. split; vm_compute; reflexivity. Qed.
+
+(* K3b (known finding): the layer form of K3.  Layer 1 given by a regex that matches 1.2 and its sub module 1.2.3, layer 2 = {1.6};
+   import 1.2.3 -> 1.4.5 (no layer).  'layer 1 should not access any layer' passes; with layer 1 given by naming 1.2 and 1.2.3 it
+   fails, reporting that import.  (The layer rule is lowered to the module rule of C11_regex_anything_refuted.) *)
+Theorem C05_regex_layer_alias_refuted :
+  exists (g : @graph N) (rm : N -> list N -> bool),
+    (forall n, rm 9%N n = Names.prefixb N.eqb [1;2]%N n) /\
+    layer_assert_applies N.eqb rm g [(1, [LRegex 9]); (2, [LName [1;6]])]%N (any_cfg true [URegex 9%N]) = LPass /\
+    layer_assert_applies N.eqb rm g [(1, [LName [1;2]; LName [1;2;3]]); (2, [LName [1;6]])]%N (any_cfg true [UNamed [1;2]%N; UNamed [1;2;3]%N])
+      = LFail [LLConc [1;2;3]%N (Some 1%N) [1;4;5]%N None].
+Proof.
+  exists {| nodes := [[1]; [1;2]; [1;2;3]; [1;4]; [1;4;5]; [1;6]]%N; imps := [([1;2;3], [1;4;5])]%N |}, (fun _ n => Names.prefixb N.eqb [1;2]%N n).
+  split; [reflexivity|]. split; vm_compute; reflexivity.
+Qed.
+Print Assumptions C05_regex_layer_alias_refuted.
